@@ -12,6 +12,25 @@ fn tb(k: i128, val: bool) -> E {
     call("tB", vec![int(k), E::Bool(val)])
 }
 
+/// leaves of a formula that hold the probing call inside another expression form
+const LEAF_FORMS: [&str; 9] = ["field-of-call", "component-of-tuple-of-call", "field-of-field-of-call", "comparison-of-call", "if-of-call", "match-of-call", "block-of-call", "closure-applied", "vector-read-of-call"];
+
+fn leaf_of(form: &str, k: i128, val: bool) -> E {
+    let b = E::Bool(val);
+    match form {
+        "field-of-call" => E::Field(Box::new(call("tW", vec![int(k), b])), "ok".into()),
+        // (a component of a call result is not accepted: the documented inference limit)
+        "component-of-tuple-of-call" => E::Proj(Box::new(E::Tuple(vec![tb(k, val), int(k)])), 0),
+        "field-of-field-of-call" => E::Field(Box::new(E::Field(Box::new(call("tWW", vec![int(k), b])), "w".into())), "ok".into()),
+        "comparison-of-call" => bin(BinOp::Eq, tb(k, val), E::Bool(true)),
+        "if-of-call" => if_(tb(k, val), E::Bool(true), E::Bool(false)),
+        "match-of-call" => E::Match(Box::new(tb(k, val)), vec![(Pat::Bool(true), E::Bool(true)), (Pat::Bool(false), E::Bool(false))]),
+        "block-of-call" => if_(E::Bool(true), block(vec![], Some(tb(k, val))), E::Bool(false)),
+        "closure-applied" => E::Call(Box::new(E::Paren(Box::new(E::Closure(vec![], Box::new(tb(k, val)))))), vec![]),
+        _ => bi("vec_get", vec![call("tV", vec![int(k), b]), int(0)]),
+    }
+}
+
 /// boolean formula shapes over three probed leaves
 const FORMULAS: [&str; 10] = ["a&&b", "a||b", "(a&&b)||c", "a&&(b||c)", "(a||b)&&c", "a||(b&&c)", "!(a&&b)", "!a||b", "a&&b&&c", "a||b||c"];
 
@@ -44,6 +63,17 @@ fn cases_list() -> Vec<Value> {
         for bits in 0..8 {
             for pos in ["let", "if-cond", "while-cond", "arg", "return"] {
                 v.push(json!({"kind": "truth", "formula": f, "bits": bits, "pos": pos}));
+            }
+        }
+    }
+    // the same truth tables with leaves that are not calls themselves but hold one: a field / a component / a field of a
+    // field of a call's result, a comparison, a branch, a match, a block, a closure applied on the spot, a vector read
+    for leaf in LEAF_FORMS {
+        for f in FORMULAS {
+            for bits in 0..8 {
+                for pos in ["let", "if-cond", "while-cond"] {
+                    v.push(json!({"kind": "truth", "formula": f, "bits": bits, "pos": pos, "leaf": leaf}));
+                }
             }
         }
     }
@@ -154,7 +184,24 @@ fn build(case: &Value) -> Option<(Program, String)> {
         "truth" => {
             let bits = case["bits"].as_u64().unwrap();
             let f = case["formula"].as_str().unwrap();
-            let e = formula(f, tb(1, bits & 1 != 0), tb(2, bits & 2 != 0), tb(3, bits & 4 != 0));
+            let e = match case["leaf"].as_str() {
+                None => formula(f, tb(1, bits & 1 != 0), tb(2, bits & 2 != 0), tb(3, bits & 4 != 0)),
+                Some(leaf) => {
+                    // results of probing calls that are structs / tuples / vectors
+                    let (k, x) = (n.fresh("k"), n.fresh("x"));
+                    let tag = |k: VarId| println(add(s("t"), i2s(v(k))));
+                    items.push(Item::Struct(StructDef { name: "Wb".into(), generics: vec![], fields: vec![("ok".into(), Ty::Bool), ("n".into(), Ty::i32())], derives: vec![] }));
+                    items.push(Item::Struct(StructDef { name: "Ww".into(), generics: vec![], fields: vec![("w".into(), Ty::Named("Wb".into(), vec![])), ("m".into(), Ty::i32())], derives: vec![] }));
+                    items.push(fn_def("tW", vec![(k, Ty::i32()), (x, Ty::Bool)], Some(Ty::Named("Wb".into(), vec![])), block(vec![st(tag(k))], Some(E::StructLit("Wb".into(), vec![("ok".into(), v(x)), ("n".into(), v(k))], vec![])))));
+                    let (k2, x2) = (n.fresh("k"), n.fresh("x"));
+                    items.push(fn_def("tWW", vec![(k2, Ty::i32()), (x2, Ty::Bool)], Some(Ty::Named("Ww".into(), vec![])), block(vec![st(tag(k2))], Some(E::StructLit("Ww".into(), vec![("w".into(), E::StructLit("Wb".into(), vec![("ok".into(), v(x2)), ("n".into(), v(k2))], vec![])), ("m".into(), v(k2))], vec![])))));
+                    let (k3, x3) = (n.fresh("k"), n.fresh("x"));
+                    items.push(fn_def("tQ", vec![(k3, Ty::i32()), (x3, Ty::Bool)], Some(Ty::Tuple(vec![Ty::Bool, Ty::i32()])), block(vec![st(tag(k3))], Some(E::Tuple(vec![v(x3), v(k3)])))));
+                    let (k4, x4) = (n.fresh("k"), n.fresh("x"));
+                    items.push(fn_def("tV", vec![(k4, Ty::i32()), (x4, Ty::Bool)], Some(Ty::Vec(Box::new(Ty::Bool))), block(vec![st(tag(k4))], Some(bi("vec_push", vec![bi("vec_new", vec![]), v(x4)])))));
+                    formula(f, leaf_of(leaf, 1, bits & 1 != 0), leaf_of(leaf, 2, bits & 2 != 0), leaf_of(leaf, 3, bits & 4 != 0))
+                }
+            };
             let pos = case["pos"].as_str().unwrap();
             match pos {
                 "let" => {
@@ -177,7 +224,10 @@ fn build(case: &Value) -> Option<(Program, String)> {
                     body.push(st(T6::Bool.show(call("produce", vec![]))));
                 }
             }
-            site = format!("truth={};pos={}", f, pos);
+            site = match case["leaf"].as_str() {
+                None => format!("truth={};pos={}", f, pos),
+                Some(leaf) => format!("truth={};pos={};leaf={}", f, pos, leaf),
+            };
         }
         "guard" => {
             let bits = case["bits"].as_u64().unwrap();
@@ -628,7 +678,7 @@ impl Family for EvalOrder {
         &["C09", "C01", "C02", "C04"]
     }
     fn rule(&self) -> &'static str {
-        "effect probes in both operand positions of all 12 binary operators at int32/int8/string/bool; full truth tables (8 assignments) of 10 &&/||/! formulas in 5 positions (let, if condition, while condition, argument, return); calls with 0-3 probed arguments through 7 callee forms (fn, closure, effectful callee expression yielding a closure / yielding a plain function, method dot/path form with probed receiver, generic fn); struct literals in all 6 written field orders, also with one field value that is call-free (a division by zero, a vector read past the end, plain reads) at each of the three written positions between two probes; while with 0-3 iterations and a probed condition; 9 call forms with an effect (fn, closure, method dot/path, trait path, through a bound, dyn, generic, builtin) in 7 positions whose value is discarded (statement, tail of a while body, tail of an if inside a while body, branch of an if / match statement, let _, tail of a block inside an if statement); tuple/array/constructor elements; three elements of one list that read and increment one Ref cell (directly, through an alias, through a call) in all 27 combinations x 9 list forms (call / closure / method arguments, tuple, array, constructor, struct literal, one arithmetic expression, calls as arguments); 20 kinds of while condition whose `false` comes from a comparison / && / || / ! / call / if / match on int, bool, enum, string, tuple / match inside && , || and if / if inside match, for the first time after three iterations, alone and inside an outer loop that runs it twice; guards: the same 10 formulas x 8 assignments with a call-free trapping operand (100 / z > 3, z in {0, 1}) in each leaf position, the other leaves plain variables or probes, as a function result or an if condition. non-trivial = programs printing >= 2 probes; distinct = distinct source text"
+        "effect probes in both operand positions of all 12 binary operators at int32/int8/string/bool; full truth tables (8 assignments) of 10 &&/||/! formulas in 5 positions (let, if condition, while condition, argument, return), and in 3 positions with leaves that hold the probing call inside another form (a field / a field of a field of its result, a component of a tuple built around it, a comparison, an if, a match, a block, a closure applied on the spot, a vector read); calls with 0-3 probed arguments through 7 callee forms (fn, closure, effectful callee expression yielding a closure / yielding a plain function, method dot/path form with probed receiver, generic fn); struct literals in all 6 written field orders, also with one field value that is call-free (a division by zero, a vector read past the end, plain reads) at each of the three written positions between two probes; while with 0-3 iterations and a probed condition; 9 call forms with an effect (fn, closure, method dot/path, trait path, through a bound, dyn, generic, builtin) in 7 positions whose value is discarded (statement, tail of a while body, tail of an if inside a while body, branch of an if / match statement, let _, tail of a block inside an if statement); tuple/array/constructor elements; three elements of one list that read and increment one Ref cell (directly, through an alias, through a call) in all 27 combinations x 9 list forms (call / closure / method arguments, tuple, array, constructor, struct literal, one arithmetic expression, calls as arguments); 20 kinds of while condition whose `false` comes from a comparison / && / || / ! / call / if / match on int, bool, enum, string, tuple / match inside && , || and if / if inside match, for the first time after three iterations, alone and inside an outer loop that runs it twice; guards: the same 10 formulas x 8 assignments with a call-free trapping operand (100 / z > 3, z in {0, 1}) in each leaf position, the other leaves plain variables or probes, as a function result or an if condition. non-trivial = programs printing >= 2 probes; distinct = distinct source text"
     }
     fn cases(&self, _tier: Tier) -> Box<dyn Iterator<Item = Value> + '_> {
         Box::new(cases_list().into_iter())
